@@ -21,8 +21,9 @@ MANIFEST = {
     "technique": "Lean 4 proof (streaming algorithm = set-based specification) + differential correspondence with the real tool",
 }
 
-REQUIRED = ["KV.C05.stats_eq_stream", "KV.C05.stats_eq_tree", "KV.C05.stats_eq_unfixed_false", "KV.C05.flush_adjusted_tree",
-            "KV.C05.discounts_eq", "KV.C05.chenGoodman_value", "KV.C05.special_ids"]
+REQUIRED = ["KV.C05.adjust_stream_eq", "KV.C05.stats_eq", "KV.C05.prune_exact", "KV.C05.prune_exact_top",
+            "KV.C05.stats_eq_stream", "KV.C05.stats_eq_tree", "KV.C05.stats_eq_unfixed_false", "KV.C05.flush_adjusted_tree",
+            "KV.C05.keep_specials_tree", "KV.C05.discounts_eq", "KV.C05.chenGoodman_value", "KV.C05.special_ids"]
 
 
 def tree_flags(consts):
@@ -181,7 +182,7 @@ def run(ctx):
         if ctx.tier == "quick":
             plan = [("witness", 1), ("small", 40), ("mid", 80)]
         else:
-            plan = [("witness", 1), ("small", 150), ("mid", 430), ("big", 8)]
+            plan = [("witness", 1), ("small", 400), ("mid", 1200), ("big", 16)]
         reported = set()
         for kind, cnt in plan:
             for i in range(cnt):
